@@ -432,14 +432,21 @@ func TestVerif_C13(t *testing.T) {
 				continue
 			}
 			msg := content(n, true)
-			var buf bytes.Buffer
+			// the sink refuses to take more than any correct framing could need (a 4-byte header per
+			// payload byte at the very worst), so a writer that makes no progress ends in an error here
+			// instead of running for ever
+			buf := &vfBoundedSink{limit: 5*n + 64}
 			rec.Eval(1)
-			if err := NewRecordMarkingWriterWithSize(&buf, fsz).WriteRecord(msg); err != nil {
-				rec.Violate("C13/writer-failed", fmt.Sprintf("fsz=%d n=%d: %v", fsz, n, err), nil)
+			if err := NewRecordMarkingWriterWithSize(buf, fsz).WriteRecord(msg); err != nil {
+				if buf.over {
+					rec.Violate("C13/writer-makes-no-progress", fmt.Sprintf("fragment size %d, record of %d bytes: the writer had emitted %d bytes (more than 5 per payload byte) when the sink stopped it", fsz, n, buf.b.Len()), nil)
+				} else {
+					rec.Violate("C13/writer-failed", fmt.Sprintf("fsz=%d n=%d: %v", fsz, n, err), nil)
+				}
 				continue
 			}
 			// independent reassembly
-			raw := buf.Bytes()
+			raw := buf.b.Bytes()
 			var re []byte
 			pos, last := 0, false
 			for pos+4 <= len(raw) && !last {
@@ -488,4 +495,21 @@ func TestVerif_C13(t *testing.T) {
 		rec.Violate("C13/decoder-panicked", vfC13Panics[0], nil)
 	}
 	rec.Sample(map[string]any{"string_lengths": lens, "auth_lengths": "0..402", "handle_lengths": "0..70", "fragmentations_of_records_up_to": maxN})
+}
+
+// vfBoundedSink is an io.Writer that fails once more than limit bytes (or limit+64 Write calls) arrived.
+type vfBoundedSink struct {
+	b      bytes.Buffer
+	limit  int
+	writes int
+	over   bool
+}
+
+func (s *vfBoundedSink) Write(p []byte) (int, error) {
+	s.writes++
+	if s.b.Len()+len(p) > s.limit || s.writes > s.limit+64 {
+		s.over = true
+		return 0, fmt.Errorf("sink budget exhausted")
+	}
+	return s.b.Write(p)
 }
